@@ -1331,7 +1331,12 @@ class Kconfig(object):
                 )
             )
 
-            self.set_value_and_source(sym, val if val[0] not in ("'", '"') else val[1:-1], filename)
+            if val[:1] == '"' and _conf_string_match(val):
+                # Written by _deprecated_config_string() with _escape(): read it back the way regular entries are
+                val = unescape(_conf_string_match(val).group(1))
+            elif val[:1] in ("'", '"'):
+                val = val[1:-1]
+            self.set_value_and_source(sym, val, filename)
             return sym
 
         in_deprecated_block = False
